@@ -126,6 +126,11 @@ Definition sctp_checksum : compute_fn := fun fs pos =>
 Definition SCTP_ALL_BUT_CHECKSUM : list fid :=
   map (fun i => mkfid P_SCTP (Z.of_nat i)) ([0; 1; 2] ++ seq 4 33)%nat.
 
+(* protocol/udp.py UDPComputeFunctions[UDPFields.CHECKSUM]: the checksum of an SCTP packet carried in the
+   datagram is covered by the UDP checksum, so it is a dependency *)
+Definition UDP_CHECKSUM_DEPS : list fid :=
+  [UDP_LENGTH; IPV6_SRC_ADDRESS; IPV6_DST_ADDRESS; IPV4_SRC_ADDRESS; IPV4_DST_ADDRESS; SCTP_CHECKSUM].
+
 Definition compute_functions : compute_table := fun f =>
   if fid_eqb f IPV4_TOTAL_LENGTH then Some (ipv4_total_length, [])
   else if fid_eqb f IPV4_HEADER_CHECKSUM then
@@ -133,6 +138,6 @@ Definition compute_functions : compute_table := fun f =>
   else if fid_eqb f IPV6_PAYLOAD_LENGTH then Some (ipv6_payload_length, [])
   else if fid_eqb f UDP_LENGTH then Some (udp_length, [])
   else if fid_eqb f UDP_CHECKSUM then
-    Some (udp_checksum, [UDP_LENGTH; IPV6_SRC_ADDRESS; IPV6_DST_ADDRESS; IPV4_SRC_ADDRESS; IPV4_DST_ADDRESS])
+    Some (udp_checksum, UDP_CHECKSUM_DEPS)
   else if fid_eqb f SCTP_CHECKSUM then Some (sctp_checksum, SCTP_ALL_BUT_CHECKSUM)
   else None.
